@@ -13,7 +13,7 @@ import (
 
 func init() {
 	checks["C20"] = checkC20
-	explanations["C20"] = "Structural necessary conditions inside package protocol, from ParseDeviceRvInfo / ParseOwnerRvInfo: (1) role filter: in the per-directive parser the arm of the device-only marker returns nil when the role flag is false and the arm of the owner-only marker returns nil when it is true, and a directive is copied into the result only after the parser's result was found non-nil; (2) the port instruction is used only under (device && variable==RVDevPort) || (!device && variable==RVOwnerPort); (3) every value decoded with cbor.Unmarshal is read only on the err==nil edge of that call, except targets of string / byte-slice kind whose error is deliberately discarded (the decoder assigns those only on success); (4) every RvVar constant is tested by one of the two interpreters or is in the one-line ignored-by-design table; (5) E3: no explicit panic or unguarded index reachable from the two entry points depends on instruction values (ArrayShift is total). Not decided: the value tables of the specification (which scheme/port/medium a value denotes), order independence."
+	explanations["C20"] = "Structural necessary conditions inside package protocol, from ParseDeviceRvInfo / ParseOwnerRvInfo: (1) role filter: in the per-directive parser the arm of the device-only marker returns nil when the role flag is false and the arm of the owner-only marker returns nil when it is true, and a directive is copied into the result only after the parser's result was found non-nil; (2) the port instruction is used only under (device && variable==RVDevPort) || (!device && variable==RVOwnerPort); (3) every value decoded with cbor.Unmarshal is read only on the err==nil edge of that call, except targets of string / byte-slice kind whose error is deliberately discarded (the decoder assigns those only on success); (4) every RvVar constant is tested by one of the two interpreters or is in the one-line ignored-by-design table; (5) E3: no explicit panic or unguarded index reachable from the two entry points depends on instruction values (ArrayShift is total). Also: a constant default port is assigned only where the port variable was found empty. Not decided: the value tables of the specification (which scheme/port/medium a value denotes), order independence."
 }
 
 func c20Rules(p *Prog, unmarshals map[ssa.CallInstruction]string) *RuleSet {
